@@ -262,6 +262,9 @@ func (m *Message) Clone() *Message {
 	return &Message{
 		Ctx:    m.Ctx,
 		Record: m.Record.Clone(),
+		// a clone of a filtered message is still filtered, otherwise the
+		// destinations behind a fan-out would write the record
+		filtered: m.filtered,
 	}
 }
 
